@@ -82,8 +82,13 @@ package tasks
 //@   trace Scope.Err as ERR bind e
 //@   trace_ensures true : ^WGWAIT ERR $
 //@   ensures result == e
+// the wait list of a task is the submission's wait list, name for name (nothing is filtered out)
+//@ func (*Task).WaitList [C14]
+//@   modifies $none
+//@   ensures arr(result) == arr(task.pip.Wait) && len(result) == len(task.pip.Wait) && off(result) == off(task.pip.Wait)
 //@ func NewTask [C14]
 //@   layers contract trace
+//@   ensures arr(result.pip.Wait) == arr(pip.Wait) && len(result.pip.Wait) == len(pip.Wait) && off(result.pip.Wait) == off(pip.Wait)
 //@   keeps stable
 //@   trace (*WaitGroup).Add as WGADD
 //@   at_call (*WaitGroup).Add requires $1 == 1
